@@ -33,6 +33,7 @@ type event struct {
 	Fail         string `json:"fail,omitempty"`          // "", parse, setup, first-startup, startup, listen
 	RestartFails bool   `json:"restart_fails,omitempty"` // the instance created by this event fails its restart callback later
 	Plain        bool   `json:"plain,omitempty"`         // the instance has a non-graceful second server
+	StopErr      bool   `json:"stop_err,omitempty"`      // the instance's first server reports an error when it is stopped (it stops all the same)
 }
 
 type history struct {
@@ -99,6 +100,7 @@ func (l *fakeLn) Addr() net.Addr { return &net.TCPAddr{IP: net.IPv4(127, 0, 0, 1
 type plainSrv struct {
 	k, n       int
 	listenFail bool
+	stopErr    bool
 }
 
 func (s *plainSrv) Listen() (net.Listener, error) {
@@ -142,6 +144,9 @@ func (s *gracefulSrv) Stop() error {
 		case <-time.After(1500 * time.Millisecond):
 			trace("#gate 2 timed out (the reload did not return)")
 		}
+	}
+	if s.stopErr {
+		return errors.New("stop: a connection outlived the grace period (injected)")
 	}
 	return nil
 }
@@ -228,7 +233,7 @@ func registerLife() {
 			var k, n int
 			fmt.Sscan(args[0], &k)
 			fmt.Sscan(args[1], &n)
-			p := plainSrv{k: k, n: n, listenFail: len(args) > 3 && args[3] == "listenfail"}
+			p := plainSrv{k: k, n: n, listenFail: len(args) > 3 && args[3] == "listenfail", stopErr: len(args) > 3 && args[3] == "stoperr"}
 			if args[2] == "graceful" {
 				ctx.servers = append(ctx.servers, &gracefulSrv{plainSrv: p, stop: make(chan struct{})})
 			} else {
@@ -256,7 +261,11 @@ func configFor(k int, e event) string {
 	if e.Fail == "setup" {
 		b.WriteString("\tcb onlyonearg\n")
 	}
-	fmt.Fprintf(&b, "\tsrv %d 1 graceful\n", k)
+	if e.StopErr {
+		fmt.Fprintf(&b, "\tsrv %d 1 graceful stoperr\n", k)
+	} else {
+		fmt.Fprintf(&b, "\tsrv %d 1 graceful\n", k)
+	}
 	kind := "graceful"
 	if e.Plain {
 		kind = "plain"
@@ -391,6 +400,9 @@ func describe(e event) string {
 	}
 	if e.Plain {
 		s += "/plain-server"
+	}
+	if e.StopErr {
+		s += "/server-stop-reports-an-error"
 	}
 	return s
 }
@@ -586,14 +598,14 @@ func main() {
 		return
 	}
 	rep := kit.NewReport("C16", "model_checking",
-		"every history of start + <=2 (thorough 3) further events over {reload via API / via real SIGUSR1 (ok, or failing at parse, setup, startup, listen, or through a failing restart callback), stop, SIGINT, SIGTERM, SIGQUIT}, with graceful and non-graceful servers, plus histories with a second signal (INT/TERM) injected from inside the first shutdown / final-shutdown callback, and histories in which INT or TERM arrives while a reload runs its startup callbacks (two gates order the handler and the reload); one child process per history on a fake server type; the ordered callback/listen/stop trace and the exit code are compared with an executable reference model; distinct_nontrivial = history classes")
-	starts := []event{{Op: "start"}, {Op: "start", Fail: "parse"}, {Op: "start", Fail: "setup"}, {Op: "start", Fail: "first-startup"}, {Op: "start", Fail: "startup"}, {Op: "start", Fail: "listen"}, {Op: "start", RestartFails: true}, {Op: "start", Plain: true}}
+		"every history of start + <=2 (thorough 3) further events over {reload via API / via real SIGUSR1 (ok, or failing at parse, setup, startup, listen, or through a failing restart callback), stop, SIGINT, SIGTERM, SIGQUIT}, with graceful and non-graceful servers and servers whose stop reports an error, plus histories with a second signal (INT/TERM) injected from inside the first shutdown / final-shutdown callback, and histories in which INT or TERM arrives while a reload runs its startup callbacks (two gates order the handler and the reload); one child process per history on a fake server type; the ordered callback/listen/stop trace and the exit code are compared with an executable reference model; distinct_nontrivial = history classes")
+	starts := []event{{Op: "start"}, {Op: "start", Fail: "parse"}, {Op: "start", Fail: "setup"}, {Op: "start", Fail: "first-startup"}, {Op: "start", Fail: "startup"}, {Op: "start", Fail: "listen"}, {Op: "start", RestartFails: true}, {Op: "start", Plain: true}, {Op: "start", StopErr: true}}
 	var steps []event
 	for _, op := range []string{"reload", "usr1"} {
 		for _, f := range []string{"", "parse", "setup", "startup", "listen", "first-startup"} {
 			steps = append(steps, event{Op: op, Fail: f})
 		}
-		steps = append(steps, event{Op: op, RestartFails: true}, event{Op: op, Plain: true})
+		steps = append(steps, event{Op: op, RestartFails: true}, event{Op: op, Plain: true}, event{Op: op, StopErr: true})
 	}
 	steps = append(steps, event{Op: "stop"}, event{Op: "INT"}, event{Op: "TERM"}, event{Op: "QUIT"})
 	depth := 2
